@@ -27,9 +27,8 @@ Recursion is by fuel (string length + 1) so that the kernel can evaluate the par
 -/
 namespace MjProof.CType
 
-/-- a code point -/
-abbrev Ch := Nat
-abbrev Str := List Ch
+/-- text: a list of code points -/
+abbrev Str := List Nat
 
 /-- the C type AST of `ast_nodes.py`.  `ValueType.nullable` and `ArrayType.nullable` are never
     printed nor set by the parser and are not modelled; `PointerType.nullable` is printed. -/
@@ -58,7 +57,7 @@ def dS (n : Nat) : Str := dSAux n n []
 /-! ### characters, whitespace, words -/
 
 /-- `str.isspace()` for one code point (the complete list for Unicode 15). -/
-def isWs (c : Ch) : Bool :=
+def isWs (c : Nat) : Bool :=
   let n := c
   (decide (9 ≤ n) && decide (n ≤ 13)) || (decide (28 ≤ n) && decide (n ≤ 32)) || n == 0x85 || n == 0xA0 ||
   n == 0x1680 || (decide (0x2000 ≤ n) && decide (n ≤ 0x200A)) || n == 0x2028 || n == 0x2029 ||
@@ -84,12 +83,12 @@ def joinSp : List Str → Str
   | w :: ws => w ++ 32 :: joinSp ws
 
 /-- split at the first occurrence of `c` -/
-def splitFirst (c : Ch) : Str → Option (Str × Str)
+def splitFirst (c : Nat) : Str → Option (Str × Str)
   | [] => none
   | x :: xs => if x = c then some ([], xs) else (splitFirst c xs).map (fun p => (x :: p.1, p.2))
 
 /-- split at the last occurrence of `c` -/
-def splitLast (c : Ch) : Str → Option (Str × Str)
+def splitLast (c : Nat) : Str → Option (Str × Str)
   | [] => none
   | x :: xs =>
     match splitLast c xs with
@@ -98,11 +97,11 @@ def splitLast (c : Ch) : Str → Option (Str × Str)
 
 /-! ### integers: `int(str)` and `str(int)` -/
 
-def digitVal (c : Ch) : Option Nat :=
+def digitVal (c : Nat) : Option Nat :=
   let n := c
   if 48 ≤ n ∧ n ≤ 57 then some (n - 48) else none
 
-def digitChar : Nat → Ch
+def digitChar : Nat → Nat
   | 0 => 48 | 1 => 49 | 2 => 50 | 3 => 51 | 4 => 52
   | 5 => 53 | 6 => 54 | 7 => 55 | 8 => 56 | _ => 57
 
@@ -147,11 +146,11 @@ def extentsStr : List Int → Str
 
 /-! ### identifiers and the `ValueType` name check -/
 
-def isIdentStart (c : Ch) : Bool :=
+def isIdentStart (c : Nat) : Bool :=
   let n := c
   (decide (65 ≤ n) && decide (n ≤ 90)) || (decide (97 ≤ n) && decide (n ≤ 122)) || n == 95
 
-def isIdentChar (c : Ch) : Bool :=
+def isIdentChar (c : Nat) : Bool :=
   let n := c
   isIdentStart c || (decide (48 ≤ n) && decide (n ≤ 57))
 
@@ -379,7 +378,7 @@ def specialType : CType := .value specialName false false
 
 /-! ### canonical text form used by the line protocol -/
 
-def b2c (b : Bool) : Ch := if b then 49 else 48
+def b2c (b : Bool) : Nat := if b then 49 else 48
 
 /-- prefix form: `V<c><v>"name"`, `P<n><c><v><r>(inner)`, `A[e1,e2](inner)` -/
 def show_ : CType → Str
